@@ -56,6 +56,9 @@ func (c Case) String() string {
 	case "scripted-server":
 		return fmt.Sprintf("scripted-server announce=%q upgrade=%q post=%q mustSecure=%v insecure=%v", c.Announce, c.Upgrade, c.Post, c.MustSecure, c.Insecure)
 	}
+	if c.Part == "honest-real-upstream" {
+		return fmt.Sprintf("honest-real-upstream %s:// serverCert=%v mustSecure=%v insecure=%v", c.Carrier, c.ServerCert, c.MustSecure, c.Insecure)
+	}
 	if c.Part == "scripted-client-endpoint" {
 		return fmt.Sprintf("scripted-client-endpoint %s+tls prefix=%s", c.Carrier, c.Script)
 	}
@@ -449,6 +452,15 @@ func cases() []Case {
 	for _, s := range clientScripts {
 		out = append(out, Case{Part: "scripted-client", Script: s})
 	}
+	for _, sp := range realSpellings {
+		for _, crt := range []bool{false, true} {
+			for _, ms := range []bool{false, true} {
+				for _, ins := range []bool{false, true} {
+					out = append(out, Case{Part: "honest-real-upstream", Carrier: sp.client, Encrypted: sp.tls, ServerCert: crt, MustSecure: ms, Insecure: ins})
+				}
+			}
+		}
+	}
 	for _, carrier := range []string{"stdio", "stream", "ws"} {
 		for _, s := range endpointScripts() {
 			out = append(out, Case{Part: "scripted-client-endpoint", Carrier: carrier, Script: s})
@@ -468,6 +480,8 @@ func run(t *testing.T, c Case) (string, string) {
 		return scriptedServer(t, c)
 	case "scripted-client-endpoint":
 		return scriptedClientEndpoint(t, c)
+	case "honest-real-upstream":
+		return honestReal(c)
 	}
 	return scriptedClient(t, c)
 }
@@ -489,7 +503,7 @@ func TestCheck(t *testing.T) {
 		}
 		if kind != "" {
 			cls := c.Part
-			if c.Part == "honest" {
+			if c.Part == "honest" || c.Part == "honest-real-upstream" {
 				cls += "|" + c.Carrier
 			}
 			r.Fail(kind+"|"+cls, fmt.Sprintf("%s: %s", c, detail), len(c.String()), c)
@@ -517,4 +531,5 @@ func TestCheck(t *testing.T) {
 	}
 	r.Note("cases_total", len(all))
 	r.Note("sum_honest_sessions_established", sessions)
+	r.Note("sum_real_upstream_sessions_established", realSessions)
 }
